@@ -74,11 +74,18 @@ def verify(bid: str):
                 res["tests_with_patch"] = meta["confirmed"].get("tests_with_patch")
             alarms = {}
             env2 = dict(os.environ, SV_EVIDENCE_DIR=os.path.join(tmp, "ev"), SV_OUT_DIR=os.path.join(tmp, "out"))
-            for pid in PIDS:
-                rc, out = sh([PY, os.path.join(HERE, "run.py"), pid, "--repo", tmp], env=env2)
-                if rc != 0:
-                    rules = sorted({l.split("rule=")[1].split()[0] for l in out.splitlines() if "rule=" in l})
-                    alarms[pid] = {"exit": rc, "rules": rules, "output": out[-1500:]}
+            if os.environ.get("SV_PER_PROCESS"):
+                for pid in PIDS:
+                    rc, out = sh([PY, os.path.join(HERE, "run.py"), pid, "--repo", tmp], env=env2)
+                    if rc != 0:
+                        rules = sorted({l.split("rule=")[1].split()[0] for l in out.splitlines() if "rule=" in l})
+                        alarms[pid] = {"exit": rc, "rules": rules, "output": out[-1500:]}
+            else:
+                rc, out = sh([PY, os.path.join(HERE, "runall.py"), "--repo", tmp], env=env2)
+                allres = json.loads(out.strip().splitlines()[-1])
+                for pid, r in allres.items():
+                    if r["exit"] != 0:
+                        alarms[pid] = {"exit": r["exit"], "rules": r["rules"], "output": r["output"][-1500:]}
             res["alarms"] = alarms
     finally:
         shutil.rmtree(tmp, ignore_errors=True)
